@@ -979,9 +979,9 @@ def correspondence(ctx) -> CorrResult:
     t_start = _time.time()
     rng = ctx.rng
     res = CorrResult()
-    n_models = ctx.scale(80, 2000)
+    n_models = ctx.scale(120, 2000)
     n_scen = 3
-    per_shard = ctx.scale(20, 25)
+    per_shard = ctx.scale(15, 25)
     max_states = ctx.scale(8, 10)
     dist = {"models": 0, "states": {}, "forwards": {}, "log_models": 0, "nonlinear_models": 0, "linear_flag": 0,
             "measurement": 0, "skipped": {}, "scenarios": 0, "deviation": 0, "anticipated": 0, "unanticipated": 0,
